@@ -20,7 +20,8 @@ CODES = [0, 1, -1, -32700, -32600, -32601, -32602, -32603, -32000, -32099, 2 ** 
 MESSAGES = ['m', '', 'é☃']
 DATA = [ABSENT, None, 0, '', [], {}, [1, {'a': None}], 'text', 1.5, True, False]
 EXCS = ['ValueError', 'KeyError', 'TypeError', 'AssertionError', 'RuntimeError', 'MarkerLookup', 'MarkerBoom',
-        'ZeroDivisionError', 'Exception', 'AttributeError', 'StopIteration', 'OSError', 'NotImplementedError']
+        'ZeroDivisionError', 'Exception', 'AttributeError', 'StopIteration', 'OSError', 'NotImplementedError',
+        'DeserializationError', 'IdentityError', 'BaseError', 'ValidationError', 'RecursionError']
 STD = {-32700: 'ParseError', -32600: 'InvalidRequestError', -32601: 'MethodNotFoundError',
        -32602: 'InvalidParamsError', -32603: 'InternalError', -32000: 'ServerError'}
 
@@ -61,7 +62,7 @@ PLACES = ['call', 'notif', 'b0', 'b1', 'b2', 'b-notif']
 def gen_failures(ctx):
     for beh in behaviours():
         for place in PLACES:
-            for disp in ('sync', 'async', 'async-plain'):
+            for disp in ('sync', 'async', 'async-plain', 'async-wrapped', 'async-seq'):
                 yield dict(part='fail', disp=disp, beh=beh, place=place)
 
 
@@ -103,7 +104,8 @@ def run_failure(case, rec):
     beh = dict(case['beh'])
     table = dict(f=beh, ok=methods.STD_TABLE['ok'])
     disp = case['disp']
-    s = Sys('async' if disp.startswith('async') else 'sync', table, coroutine_methods=(disp == 'async'))
+    s = Sys({'async-plain': 'async', 'async-wrapped': 'async-wrapped', 'async-seq': 'async-seq'}.get(disp, disp), table,
+            coroutine_methods={'async': True, 'async-plain': False, 'async-seq': True}.get(disp))
     doc = fail_doc(case['place'])
     text = json.dumps(doc)
     o = observe(s, text)
@@ -170,7 +172,7 @@ def run_text(case, rec):
                           observed=dict(answer=o['answer'], calls=o['calls']))
         return obs_key(o)
     doc = jsonstrict.to_python(tree)
-    alts = ref.expected(doc, c01.TABLE)
+    alts = ref.expected(doc, c01.REF_TABLE)
     problems = ref.match_any(o['answer'], o['calls'], alts)
     if problems is not None:
         rec.violation('C03:text:ref:%s' % norm(problems[-1]), case, expected=[a for a, _ in alts],
